@@ -38,6 +38,7 @@ type Job struct {
 	Seed       int64             `json:"seed"`
 	MaxSteps   int64             `json:"max_steps"`
 	Params     map[string]int    `json:"params"`
+	Profile    string            `json:"profile"`
 }
 
 type DiffRun struct {
@@ -206,7 +207,7 @@ func runJob(prog *ssa.Program, job *Job) (jr *JobResult) {
 		return
 	}
 	cfg := sym.Config{Unwind: job.Unwind, AllocBound: job.AllocBound, PermBound: job.PermBound, MaxPaths: job.MaxPaths,
-		MaxSteps: job.MaxSteps, Params: job.Params, QueryMs: job.QueryMs, Solver: job.Solver, Stubs: job.Stubs, Trace: job.Trace, Known: map[string]bool{}}
+		MaxSteps: job.MaxSteps, Params: job.Params, Profile: job.Profile, QueryMs: job.QueryMs, Solver: job.Solver, Stubs: job.Stubs, Trace: job.Trace, Known: map[string]bool{}}
 	if job.Mode == "int" {
 		cfg.Mode = sym.ModeInt
 	}
